@@ -12,6 +12,8 @@ import (
 	"os"
 	"path/filepath"
 	"regexp"
+	"runtime/debug"
+	"runtime/pprof"
 	"sort"
 	"strings"
 	"time"
@@ -107,8 +109,15 @@ func main() {
 	verbose := fs.Bool("v", false, "verbose")
 	timeLimit := fs.Int("timelimit", 0, "seconds per harness (0 = none)")
 	boundsFlag := fs.String("bounds", "", "harness bounds name=value,... (vrtBound)")
+	cpuprof := fs.String("cpuprofile", "", "write a CPU profile")
 	fs.Parse(os.Args[2:])
 
+	debug.SetGCPercent(800) // paths allocate large short-lived heaps (ring buffers as cell arrays)
+	if *cpuprof != "" {
+		f, _ := os.Create(*cpuprof)
+		pprof.StartCPUProfile(f)
+		defer pprof.StopCPUProfile()
+	}
 	overlay := map[string][]byte{}
 	addFile := func(f string) {
 		b, err := os.ReadFile(f)
